@@ -391,6 +391,7 @@ SECTION_RE = re.compile(
     ^                                                    # start
     \s*                                                  # 0 or more whitespace characters
     SECTION                                              # SECTION
+    (?![\w-])                                            #   and not the beginning of a symbol name
     \s*                                                  # 0 or more whitespace characters
     (?P<delimiter>:?)                                    # delimiter
     \s*                                                  # 0 or more whitespace characters
